@@ -62,6 +62,15 @@ def nocopy_universe():
     nt[4]["ftag"] = "5,required,,nocopy"
     d["NCt"] = struct(nt)
     d["NCtN"] = struct([field(1, "default", ST("NCt", True)), field(2, "default", L(ST("NCt", True))), field(3, "default", T("string"), nocopy=True)])
+    # nocopy strings with non-empty declared defaults (a value equal to the default is still a view of the input)
+    dn = [field(1, "default", T("string"), nocopy=True), field(2, "optional", T("string", True), nocopy=True), field(3, "default", T("binary"), nocopy=True),
+          field(4, "default", T("string"))]
+    dn[0]["def"] = list(b"eu-west-1")
+    dn[1]["def"] = {"p": 1, "v": list(b"n/a")}
+    dn[2]["def"] = {"nil": False, "b": [7, 7, 7]}
+    dn[3]["def"] = list(b"plain")
+    d["NCd"] = struct(dn, init=True)
+    d["NCdN"] = struct([field(1, "default", ST("NCd", True)), field(2, "default", L(ST("NCd", True))), field(3, "default", T("string"), nocopy=True)])
     # writers that know one / two more fields than the holder type NIn
     d["WNIn1"] = struct(d["NIn"]["fields"] + [field(9, "default", T("string"))])
     d["WNIn2"] = struct(d["NIn"]["fields"] + [field(9, "default", T("string")), field(10, "default", T("binary"))])
@@ -256,6 +265,43 @@ def run14(prop, tier, seed, work):
                  {"op": "overwrite", "obj": 0, "byte": 255}, {"op": "recheck", "obj": 0, "after": "overwrite"}]
         sid = "C14-" + c["cid"]
         scen.append({"sid": sid, "prop": prop, "vals": [], "steps": steps, "tags": ["typeless-spelling"], "dkey": sid})
+    # values equal to the declared defaults of nocopy fields; zero-length values decoded into an object that held views
+    dcases = []
+    eq = {"f": {"1": list(b"eu-west-1"), "2": {"p": 1, "v": list(b"n/a")}, "3": {"nil": False, "b": [7, 7, 7]}, "4": list(b"plain")}, "unk": []}
+    ne = {"f": {"1": list(b"other"), "2": {"p": 1, "v": list(b"x")}, "3": {"nil": False, "b": [1]}, "4": list(b"q")}, "unk": []}
+    em = {"f": {"1": [], "2": {"p": 1, "v": []}, "3": {"nil": False, "b": []}, "4": []}, "unk": []}
+    for lbl, inner in (("eq", eq), ("ne", ne), ("em", em)):
+        dcases.append({"cid": "ND|" + lbl, "w": "NCdN", "val": {"f": {"1": {"p": 1, "v": inner}, "2": {"nil": False, "items": [{"p": 1, "v": inner}, {"p": 1, "v": eq}]},
+                                                                   "3": [] if lbl == "em" else list(b"top")}, "unk": []}, "ord": "asc", "trail": [], "mut": "none"})
+        dcases.append({"cid": "NDt|" + lbl, "w": "NCd", "val": inner, "ord": "desc", "trail": [], "mut": "none"})
+    dmsgs, st4 = vlib.gen_messages(work, defs_path, dcases)
+    res.tlc_states += st4.get("distinct", 0)
+    res.tlc_transitions += st4.get("generated", 0)
+    for c in dcases:
+        ty = "NCdN" if c["cid"].startswith("ND|") else "NCd"
+        steps = [{"op": "decode", "ty": ty, "in": dmsgs[c["cid"]][0], "dest": "fresh"}, {"op": "walk", "objs": [0]},
+                 {"op": "overwrite", "obj": 0, "byte": 255}, {"op": "recheck", "obj": 0, "after": "overwrite"}]
+        sid = "C14-" + c["cid"]
+        scen.append({"sid": sid, "prop": prop, "vals": [], "steps": steps, "tags": ["declared-defaults"], "dkey": sid})
+    for ty, a, b in (("NCd", "NDt|ne", "NDt|em"), ("NCd", "NDt|eq", "NDt|em"), ("NCdN", "ND|ne", "ND|em"), ("NCd", "NDt|em", "NDt|ne")):
+        steps = [{"op": "decode", "ty": ty, "in": dmsgs[a][0], "dest": "fresh"},
+                 {"op": "decode", "ty": ty, "in": dmsgs[b][0], "dest": "into", "obj": 0},      # the caller reuses the object
+                 {"op": "walk", "objs": [1]}]
+        sid = "C14-reuse-%s-%s" % (a, b)
+        scen.append({"sid": sid, "prop": prop, "vals": [], "steps": steps, "tags": ["reused-destination"], "dkey": sid})
+    # very long values in fields without the option (beyond every small-object size class)
+    lv = lambda n, k: U.strbytes(n, k)
+    big = {"f": {"5": lv(9, 1), "1": {"nil": False, "b": lv(40000, 2)}, "3": lv(40000, 3), "4": {"nil": False, "b": lv(33000, 4)}, "2": {"p": 0}, "6": {"p": 1, "v": lv(70000, 6)},
+                 "7": {"p": 0}, "8": {"f": {"1": lv(1, 1), "2": lv(35000, 2), "3": {"nil": True, "b": []}}, "unk": []},
+                 "9": {"nil": False, "items": [lv(33000, 11), lv(2, 12)]}, "10": [0, 0, 0, 7],
+                 "11": {"nil": False, "ents": []}, "12": {"nil": False, "ents": [[lv(33000, 15), lv(34000, 16)]]}, "13": {"nil": False, "items": [{"nil": False, "b": lv(36000, 17)}]},
+                 "14": {"nil": False, "items": [lv(33000, 19)]}, "15": {"nil": True, "ents": []}, "16": {"nil": False, "ents": []}}, "unk": []}
+    bmsgs, st5 = vlib.gen_messages(work, defs_path, [{"cid": "NCbig", "w": "NC", "val": big, "ord": "rot", "trail": [], "mut": "none"}])
+    res.tlc_states += st5.get("distinct", 0)
+    res.tlc_transitions += st5.get("generated", 0)
+    scen.append({"sid": "C14-long-values", "prop": prop, "vals": [], "tags": ["long-values"], "dkey": "long-values",
+                 "steps": [{"op": "decode", "ty": "NC", "in": bmsgs["NCbig"][0], "dest": "fresh"}, {"op": "walk", "objs": [0]},
+                           {"op": "overwrite", "obj": 0, "byte": 255}, {"op": "recheck", "obj": 0, "after": "overwrite"}]})
     # a decode that fails inside the message, then the complete message: the second result is like the first-ever one
     for ci, c in enumerate(cases):
         if (ci % 5 if quick else ci % 2):      # 5 is coprime to the 4 field orders: all of them come up
